@@ -343,9 +343,12 @@ func (p *BinaryProtocol) WriteList(desc *proto.TypeDescriptor, val interface{}, 
 	}
 
 	// unpacked List bytes format: [T(L)V][T(L)V]...
+	// every element carries the wire type of the element kind (length-delimited only for
+	// strings, bytes and messages; a scalar list declared [packed = false] uses varint/fixed tags)
+	elemWireType := desc.Elem().WireType()
 	for _, v := range vs {
 		// share the same field number for Tag
-		if err := p.AppendTag(fieldId, proto.BytesType); err != nil {
+		if err := p.AppendTag(fieldId, elemWireType); err != nil {
 			return err
 		}
 
